@@ -62,12 +62,25 @@ func isPanic(err error) bool {
 	return errors.As(err, &p)
 }
 
+var (
+	basicOnce   sync.Once
+	basicAttrs  []chord.Attribute
+	basicChords []chord.Chord
+)
+
+// implChordMap builds a fresh dictionary the way cmd/io.go newChordBuilder does. The embedded
+// definitions are parsed once (plain values); the Builder and the Map are new per call.
 func implChordMap(attrFiles, chordFiles []string) (*chord.Map, error) {
+	basicOnce.Do(func() {
+		basicAttrs = chord.BasicAttributes()
+		basicChords = chord.BasicChords()
+	})
 	b := chord.NewBuilder()
-	for _, x := range chord.BasicAttributes() {
+	for _, x := range basicAttrs {
 		b.Attribute(x)
 	}
-	for _, x := range chord.BasicChords() {
+	for _, x := range basicChords {
+		x.Attributes = append([]string(nil), x.Attributes...)
 		b.Chord(x)
 	}
 	for _, f := range attrFiles {
@@ -91,12 +104,6 @@ func implChordMap(attrFiles, chordFiles []string) (*chord.Map, error) {
 	return b.Build()
 }
 
-var (
-	basicMapOnce sync.Once
-	basicMap     *chord.Map
-	basicMapErr  error
-)
-
 // implWriteLib composes the library packages the way cmd/write.go does (in-process).
 func implWriteLib(doc string, cfg writeCfg) (out []byte, err error) {
 	defer func() {
@@ -116,13 +123,8 @@ func implWriteLib(doc string, cfg writeCfg) (out []byte, err error) {
 	if err != nil {
 		return nil, err
 	}
-	var cmap *chord.Map
-	if len(cfg.AttrFiles) == 0 && len(cfg.ChordFiles) == 0 {
-		basicMapOnce.Do(func() { basicMap, basicMapErr = implChordMap(nil, nil) })
-		cmap, err = basicMap, basicMapErr
-	} else {
-		cmap, err = implChordMap(cfg.AttrFiles, cfg.ChordFiles)
-	}
+	// a fresh dictionary per execution: executions must not share mutable state
+	cmap, err := implChordMap(cfg.AttrFiles, cfg.ChordFiles)
 	if err != nil {
 		return nil, err
 	}
